@@ -114,8 +114,30 @@ def build_operator(p, plate_names=None):
     raise KeyError(n)
 
 
+def _decoys(p, plate_names):
+    """other, differently configured objects of the same (and of a related) class that stay alive while the object under test is
+    used: an object's settings are its own, whatever else has been constructed in the process"""
+    out = []
+    q = dict(p)
+    for k_, v_ in p.items():
+        if isinstance(v_, int) and not isinstance(v_, bool):
+            q[k_] = v_ + 5 if k_ != "n_iterations" else (v_ + 2)
+    if q != p:
+        try:
+            out.append(build_operator(q, plate_names))
+        except Exception:
+            pass
+    if p["name"] in ("MergeMin", "MergeTopBottom", "NPlatePerCellLine"):
+        try:
+            out.append(build_operator({"name": "BatchieEnsemble", "min_size": 97, "n_iterations": 3, "k": 9}, plate_names))
+        except Exception:
+            pass
+    return out
+
+
 def apply_operator(p, screen, rng):
     op = build_operator(p, [str(x) for x in screen.plate_names])
+    alive = _decoys(p, [str(x) for x in screen.plate_names])  # noqa: F841  (kept alive on purpose until the call returns)
     if p["name"] in GENERATORS:
         return op.generate_plates(screen, rng)
     return op.smooth_plates(screen, rng)
